@@ -116,6 +116,7 @@ type thr struct {
 	gate     chan struct{}
 	open     bool // gates pre-opened (sequential replay)
 	cls, val int
+	panicText string
 	cr       *caseRun
 }
 
@@ -394,6 +395,14 @@ func start(sess p9p.Session, t *thr) {
 		t.gid = goid()
 		close(t.gidReady)
 		ctx := context.WithValue(context.Background(), thrKey{}, t)
+		defer func() {
+			// a Go panic inside a session method is an observation (class 15), not a crash of the harness
+			if x := recover(); x != nil {
+				t.cls, t.val = 15, 0
+				t.panicText = fmt.Sprint(x)
+				t.state.Store(stDone)
+			}
+		}()
 		t.cls, t.val = execOp(ctx, sess, t.op)
 		t.state.Store(stDone)
 	}()
@@ -858,6 +867,9 @@ func runCase(rng *prng.R) caseResult {
 	}
 	cr.mu.Unlock()
 	for _, t := range ths {
+		if t.cls == 15 {
+			fail("c14.panic:"+t.op.kind, "a session method panicked: "+t.panicText+"; history: "+hist())
+		}
 		if t.cls == 99 {
 			fail("c14.harness:unclassified-error", "unexpected error text from op "+t.op.kind)
 		}
@@ -982,6 +994,7 @@ func childMain(seed uint64, batch, count int) {
 	w := bufio.NewWriter(os.Stdout)
 	enc := json.NewEncoder(w)
 	for i := 0; i < count; i++ {
+		fmt.Fprintf(os.Stderr, "@@case %d of batch %d (seed %d)\n", i, batch, seed)
 		res := runCase(rng.Fork())
 		enc.Encode(res)
 		w.Flush()
@@ -1025,6 +1038,7 @@ func main() {
 	type batchOut struct {
 		lines [][]byte
 		err   string
+		crash string
 		races string
 	}
 	outs := make([]batchOut, nb)
@@ -1060,7 +1074,8 @@ func main() {
 			if ctx.Err() != nil {
 				o.err = fmt.Sprintf("child process for batch %d did not finish within %s (%d of %d cases done)", b, childLimit, len(o.lines), cnt)
 			} else if err != nil {
-				o.err = fmt.Sprintf("child process for batch %d failed: %v: %s", b, err, tail(se.String(), 1500))
+				o.crash = crashLine(se.String())
+				o.err = fmt.Sprintf("child process for batch %d died (%v) in %s: %s", b, err, lastCase(se.String()), tail(se.String(), 1500))
 			}
 			if strings.Contains(se.String(), "DATA RACE") {
 				o.races = se.String()
@@ -1101,6 +1116,8 @@ func main() {
 		if o.err != "" {
 			if strings.Contains(o.err, "did not finish") {
 				r.Fail("c14.process-wedged", o.err, nil, nil)
+			} else if o.crash != "" {
+				r.Fail("c14.process-crashed:"+o.crash, "concurrent session operations crashed the process: "+o.err, nil, nil)
 			} else {
 				harnessErr = o.err
 			}
@@ -1117,6 +1134,30 @@ func main() {
 		r.Close()
 		os.Exit(3)
 	}
+}
+
+// crashLine: the Go runtime's one-line reason ("fatal error: ..." / "panic: ..."), as a stable key
+func crashLine(stderr string) string {
+	for _, l := range strings.Split(stderr, "\n") {
+		if strings.HasPrefix(l, "fatal error: ") || strings.HasPrefix(l, "panic: ") {
+			l = strings.ReplaceAll(l, " ", "-")
+			if len(l) > 80 {
+				l = l[:80]
+			}
+			return l
+		}
+	}
+	return ""
+}
+
+func lastCase(stderr string) string {
+	last := "?"
+	for _, l := range strings.Split(stderr, "\n") {
+		if strings.HasPrefix(l, "@@case ") {
+			last = l[2:]
+		}
+	}
+	return last
 }
 
 func tail(s string, n int) string {
